@@ -113,6 +113,9 @@ def _job(args):
         out["stats"] = st.to_json()
         out["samples"] = st.samples
         out["wall_s"] = time.time() - t0
+        # results cross a process boundary: anything that is not plain data (enum members, proxies, z3 handles in notes) is rendered as text
+        for k in ("cex", "samples", "inconclusive"):
+            out[k] = json.loads(json.dumps(out[k], default=str))
         return out
     except BaseException as e:  # noqa
         return {"error": f"{type(e).__name__}: {e}\n{traceback.format_exc()[-3000:]}", "wall_s": time.time() - t0}
@@ -241,6 +244,7 @@ def run_property(prop_id, tier, modname, level="other", explanation="", assumpti
             R["classes"] = {}
             for key, lst in bykey.items():
                 rep = None
+                last_desc = ""
                 for c in lst[:3]:
                     if c.get("pre_replayed"):
                         rr = {"reproduced": True, "desc": c["message"]}
@@ -252,8 +256,15 @@ def run_property(prop_id, tier, modname, level="other", explanation="", assumpti
                     if rr["reproduced"]:
                         rep = (c, rr)
                         break
+                    last_desc = str(rr.get("desc"))[:300]
                 if rep is None:
-                    unreproduced.append((ob.name, key, lst[0]["message"]))
+                    try:
+                        ud = os.path.join(VERIF, "scratch", "unreproduced")
+                        os.makedirs(ud, exist_ok=True)
+                        json.dump(lst[0], open(os.path.join(ud, f"{prop_id}-{ob.name}-{hashlib.sha1(key.encode()).hexdigest()[:8]}.json"), "w"), indent=1, default=str)
+                    except Exception:
+                        pass
+                    unreproduced.append((ob.name, key, lst[0]["message"] + f" [replay said: {last_desc}]"))
                     R["classes"][key] = "not-reproduced"
                     continue
                 c, rr = rep
@@ -353,8 +364,11 @@ def run_property(prop_id, tier, modname, level="other", explanation="", assumpti
             coverage.update(states=st, transitions=tr, traces_validated_against_impl=tv)
     ev = {"property_id": prop_id, "tier": tier, "seed": seed, "level": level, "coverage": coverage,
           "assumptions": assumptions or [], "wall_s": round(wall, 2), "violations": len(violations)}
-    os.makedirs(os.path.join(VERIF, "evidence"), exist_ok=True)
-    json.dump(ev, open(os.path.join(VERIF, "evidence", f"{prop_id}.json"), "w"), indent=1, default=str)
+    # a partial run (--only) or a development run against a scratch copy (VERIF_NO_EVIDENCE=1) must not overwrite the evidence of the
+    # last full run against /repo
+    evdir = os.path.join(VERIF, "scratch", "evidence-partial") if (only or os.environ.get("VERIF_NO_EVIDENCE")) else os.path.join(VERIF, "evidence")
+    os.makedirs(evdir, exist_ok=True)
+    json.dump(ev, open(os.path.join(evdir, f"{prop_id}.json"), "w"), indent=1, default=str)
 
     print(f"[{prop_id} {tier}] obligations={n_obl} discharged={discharged} paths={tot_paths} completed={tot_completed} "
           f"queries={tot_q} solver={tot_solver:.1f}s wall={wall:.1f}s")
